@@ -63,7 +63,9 @@ def run_check(cid, tier, seed, jobs, budget_override=None, keep=False):
     t0 = time.time()
     mod = load_check(cid)
     conf = mod.CONFIG[tier]
-    budget = budget_override or conf.get("budget_s", 60)
+    # budget_s is the nominal CPU time per worker the tier was sized for; the workers only stop at 2.5x that (a backstop: the
+    # cases explored are fixed by the case list, so the reach does not depend on machine load)
+    budget = budget_override or conf.get("budget_s", 60) * 2.5
     nshards = min(jobs, conf.get("max_workers", 16))
     scratch = tempfile.mkdtemp(prefix=f"vmon-{cid}-")
     procs = []
